@@ -322,6 +322,7 @@ type env struct {
 	ctxBusy   map[int]bool
 	scen      string
 	panicked  atomic.Bool
+	async     bool // requests may be held in flight: no call may wait forever
 }
 
 func (e *env) gate(op string, leaf int) {
